@@ -17,9 +17,45 @@ def run(ctx, drv):
         reqs.append(line); post.append(fn)
     ncfg = 220 if ctx.quick() else 2500
     cfgs = runs.gen_configs(rng, ncfg, evaluators=("map", "map", "pickle"), extreme=0.0 if ctx.quick() else 0.01)
+    # runs with adaptive time continuation (short windows: a restart every few iterations), long enough for several restarts; their
+    # own generator, so that the stream of the other runs is what it was.  Replayed through Model/Restart.lean (`erun`).
+    import random as _rnd
+    rrng = _rnd.Random(ctx.seed * 7919 + 8)
+    rcfgs = runs.gen_configs(rrng, 14 if ctx.quick() else 160, names=["NSGAII+restarts"], sizes=(5, 6, 8, 11), evaluators=("map",))
+    for c_ in rcfgs:
+        c_["restart_budgets"] = [rrng.choice([6, 10, 15]) * c_["size"]] + [rrng.choice([1, 2 * c_["size"], 5 * c_["size"]]) for _ in range(rrng.choice([0, 1]))]
+    cfgs = list(cfgs) + rcfgs
     for k, cfg in enumerate(cfgs):
         s = cfg["size"]
         pool = [0, 1, s - 1, s, s + 1, 2 * s, 2 * s + 1, 3 * s - 1, 2]
+        if "restart_budgets" in cfg:
+            budgets = cfg.pop("restart_budgets")
+            tr, alg, err = runs.execute(cfg, budgets, collect_steps=True)
+            inp = runs.describe(cfg, budgets=budgets)
+            if err is not None:
+                runs.note_aborted(ctx, cfg, err)
+                continue
+            ctx.count("runs_with_forced_restarts")
+            segs = runs.segments(tr)
+            runs.genstep_replay(ctx, ask, alg, segs, inp)
+            for j, sg in enumerate(segs):
+                nfes = [st["nfe"] for st in sg["steps"]]
+                N, n0 = sg["N"], sg["nfe_before"]
+                sinp = dict(inp, run_index=j, N=N, nfe_at_start=n0, nfe_after_each_iteration=nfes[:60])
+                where = "core.Algorithm.run (NSGAII + AdaptiveTimeContinuationExtension)"
+                incs = [b - a for a, b in zip([n0] + nfes, nfes)]
+                if any(i < 1 for i in incs):
+                    ctx.fail("counter-not-strictly-increasing", sinp, incs[:60], "every iteration adds >= 1", where)
+                elif N > 0 and (not nfes or nfes[-1] - n0 < N):
+                    ctx.fail("stops-before-budget", sinp, (nfes[-1] - n0) if nfes else 0, f">= {N}", where)
+                elif any(x - n0 >= N for x in nfes[:-1]):
+                    ctx.fail("step-started-after-budget-met", sinp, nfes[:60], f"stop at first iteration reaching {N}", where)
+                for st in sg["steps"]:
+                    for b in st["batches"]:
+                        if b["calls"] > b["nfe_after"] - b["nfe_before"]:
+                            ctx.fail("counter-smaller-than-real-calls", sinp, b["nfe_after"] - b["nfe_before"], f">= {b['calls']}", "core.Algorithm.evaluate_all")
+                ctx.case((cfg["name"], cfg["seed"], tuple(budgets), j), N > 0 and len(nfes) >= 2, None)
+            continue
         budgets = [rng.choice(pool) for _ in range(rng.choice([1, 1, 2, 3]))]
         if k % 9 == 0:
             budgets = [0] + budgets
